@@ -53,7 +53,7 @@ Definition union_uid (a b : list uid) : list uid := fold_left (fun acc u => inse
    `ensemble` is not modelled (histories do not build ensembles). *)
 Record leaf := mkLeaf {
   l_label : option string; l_u : Z; l_df : Z; l_indep : bool;
-  l_complex : option (bool * (uid * uid));     (* the `complex` attribute; true: a list (JSON), false: a tuple *)
+  l_complex : option (uid * uid);              (* the `complex` attribute: a tuple of two uids (every reader builds a tuple) *)
   l_corr : option (list (uid * Z)) }.
 
 Definition isig := (option string * Z)%type.      (* Node: label, code of (u, df) *)
@@ -140,32 +140,40 @@ Definition setitem (a : archive) (key : string) (o : pyobj) : archive * res unit
         if smem (a_treal a) n_re || smem (a_ureal a) n_re then (a, Err RuntimeError) else
         let n_im := tag_im key in
         if smem (a_treal a) n_im || smem (a_ureal a) n_im then (a, Err RuntimeError) else
-        (* the components are recorded BEFORE the declared-intermediate check *)
-        let a1 := w_ureal a (sset (sset (a_ureal a) n_re (RLive re)) n_im (RLive im)) in
-        if is_elem re || is_elem im then (w_tcomplex a1 (sset (a_tcomplex a1) key (CLive re im)), Ok tt)
+        (* nothing is recorded until all the checks have passed (fix: checks before side effects) *)
+        let store (a0 : archive) : archive :=
+            let a1 := w_ureal a0 (sset (sset (a_ureal a0) n_re (RLive re)) n_im (RLive im)) in
+            w_tcomplex a1 (sset (a_tcomplex a1) key (CLive re im)) in
+        if is_elem re || is_elem im then (store a, Ok tt)
         else match node_uid re, node_uid im with
              | Ok ur, Ok ui =>
-                 match u2i_add a1 ur with
-                 | Err e => (a1, Err e)
+                 match u2i_add a ur with
+                 | Err e => (a, Err e)
                  | Ok a2 => match u2i_add a2 ui with
-                            | Err e => (a2, Err e)
-                            | Ok a3 => (w_tcomplex a3 (sset (a_tcomplex a3) key (CLive re im)), Ok tt)
+                            | Err e => (a, Err e)       (* cannot happen: a2 has the dict *)
+                            | Ok a3 => (store a3, Ok tt)
                             end
                  end
-             | _, _ => (a1, Err RuntimeError)           (* not declared intermediate *)
+             | _, _ => (a, Err RuntimeError)            (* not declared intermediate *)
              end
     | POther => (a, Err RuntimeError)
     end
   else (a, Err RuntimeError).
 
-(* ---- Archive.add with kwargs: one _setitem per keyword, in order; no rollback *)
-Fixpoint add (a : archive) (kw : list (string * pyobj)) : archive * res unit :=
+(* ---- Archive.add with kwargs: one _setitem per keyword, in order; if one of them raises, the
+   four dicts are restored to what they were before the call (all or nothing) *)
+Fixpoint add_loop (a : archive) (kw : list (string * pyobj)) : archive * res unit :=
   match kw with
   | [] => (a, Ok tt)
   | (k, o) :: t => match setitem a k o with
-                   | (a1, Ok _) => add a1 t
+                   | (a1, Ok _) => add_loop a1 t
                    | (a1, Err e) => (a1, Err e)
                    end
+  end.
+Definition add (a : archive) (kw : list (string * pyobj)) : archive * res unit :=
+  match add_loop a kw with
+  | (a1, Ok _) => (a1, Ok tt)
+  | (_, Err e) => (a, Err e)
   end.
 
 (* ---- Archive._getitem / extract *)
@@ -329,8 +337,21 @@ Definition freeze (s : session) (a : archive) : archive * res unit :=
   else (a, Err RuntimeError).
 
 (* ------------------------------------------------------------------ _thaw (archive.py 648-752) *)
-(* phase 1: one new_leaf per archived leaf, then the archived attributes are ASSIGNED onto the
-   leaf that new_leaf returned -- possibly a live one *)
+(* phase 1: one new_leaf per archived leaf; `complex` is assigned onto the leaf that new_leaf
+   returned (possibly a live one).  Correlations: when the uid was registered already (a live
+   node of this session) the archived entries are MERGED into the dict the node has
+   (l.correlation.setdefault: the session's entries win, archived entries it lacks are
+   appended); a node that was just created gets the archived dict assigned, as before *)
+Fixpoint corr_merge (c arch : list (uid * Z)) : list (uid * Z) :=
+  match arch with
+  | [] => c
+  | (k, v) :: t => corr_merge (if dmem uid_eqb c k then c else c ++ [(k, v)]) t
+  end.
+Definition thaw_corr (live archived : option (list (uid * Z))) : option (list (uid * Z)) :=
+  match archived with
+  | None => live
+  | Some c' => match live with Some c => Some (corr_merge c c') | None => Some c' end
+  end.
 Fixpoint thaw_leaves (s : session) (ln : list (uid * leaf)) : session * res unit :=
   match ln with
   | [] => (s, Ok tt)
@@ -340,7 +361,8 @@ Fixpoint thaw_leaves (s : session) (ln : list (uid * leaf)) : session * res unit
       | Ok (s1, l) =>
           let l1 := mkLeaf (l_label l) (l_u l) (l_df l) (l_indep l)
                            (match l_complex fl with Some c => Some c | None => l_complex l end)
-                           (match l_corr fl with Some c => Some c | None => l_corr l end) in
+                           (if dmem uid_eqb (s_leaves s) u then thaw_corr (l_corr l) (l_corr fl)
+                            else match l_corr fl with Some c => Some c | None => l_corr l end) in
           thaw_leaves (w_leaves s1 (lset (s_leaves s1) u l1)) t
       end
   end.
@@ -406,7 +428,7 @@ Fixpoint thaw_reals (s : session) (iu : list (ouid * isig)) (a : archive) (items
 Definition set_complex (s : session) (u : uid) (c : uid * uid) : session :=
   match lget (s_leaves s) u with
   | None => s
-  | Some l => w_leaves s (lset (s_leaves s) u (mkLeaf (l_label l) (l_u l) (l_df l) (l_indep l) (Some (false, c)) (l_corr l)))
+  | Some l => w_leaves s (lset (s_leaves s) u (mkLeaf (l_label l) (l_u l) (l_df l) (l_indep l) (Some c) (l_corr l)))
   end.
 
 Fixpoint thaw_complexes (s : session) (iu : list (ouid * isig)) (a : archive) (items : list (string * cval))
@@ -559,22 +581,14 @@ Definition write (s : session) (a : archive) (f : fmt) : archive * res doc :=
 Definition xml_label (l : option string) : option string :=
   match l with Some EmptyString => None | _ => l end.
 Definition xml_leaf (l : leaf) : leaf :=
-  mkLeaf (xml_label (l_label l)) (l_u l) (l_df l) (l_indep l)
-         (match l_complex l with Some (_, c) => Some (false, c) | None => None end) (l_corr l).
-
-Definition json_leaf (l : leaf) : leaf :=
-  mkLeaf (l_label l) (l_u l) (l_df l) (l_indep l)
-         (match l_complex l with Some (_, c) => Some (true, c) | None => None end) (l_corr l).
+  mkLeaf (xml_label (l_label l)) (l_u l) (l_df l) (l_indep l) (l_complex l) (l_corr l).
 
 (* what the decoder hands to _thaw *)
 Definition decode (d : doc) : archive :=
   let '(f, a) := d in
   match f with
   | FPickle => w_flags a false false
-  | FJson =>
-      (* jason_to_leaf rebuilds `complex` as a LIST of two uids *)
-      mkA false false (a_treal a) (a_tcomplex a) (a_ureal a) (Some [])
-          (option_map (map (fun p => (fst p, json_leaf (snd p)))) (a_leafn a)) (a_iuids a)
+  | FJson => w_u2i (w_flags a false false) (Some [])     (* jason_to_leaf: `complex` is a tuple again *)
   | FXml =>
       mkA false false (a_treal a) (a_tcomplex a) (a_ureal a) (Some [])
           (option_map (map (fun p => (fst p, xml_leaf (snd p)))) (a_leafn a))
